@@ -135,10 +135,14 @@ def build(sc: dict):
         else:
             link("R1", 2, "R2", 1, "R1-R2"); link("R2", 2, "SW2", 6, "R2-SW2")
         link("B", 1, "SW2", 1, "SW2-B")
+        if sc.get("third_host"):
+            # D: B's neighbour on the same segment, NOT protected by the destination-specific rule (history scenarios)
+            add(_host(Server, "D", "10.0.2.21", "10.0.2.1", shut))
+            link("D", 1, "SW2", 2, "SW2-D")
         for r in [n for n in N.values() if isinstance(n, Router)]:
             for p in r.network_interface:
                 r.enable_port(p)
-        info = {"b_ip": b_ip, "b_net": "10.0.2.0/24"}
+        info = {"b_ip": b_ip, "b_net": "10.0.2.0/24", "d_ip": "10.0.2.21"}
     elif fam == "firewall":
         zones = {"ext": ("10.0.1", 1), "int": ("10.0.2", 2), "dmz": ("10.0.3", 3)}
         za, zb = sc["a_zone"], sc["b_zone"]
@@ -235,7 +239,7 @@ def edges(sc: dict) -> List[tuple]:
         return [("A", "SW1"), ("C", "SW1"), ("SW1", "SW2"), ("SW2", "B")]
     if fam == "routed":
         mid = [("R1", "SW2")] if sc.get("routers", 1) == 1 else [("R1", "R2"), ("R2", "SW2")]
-        return [("A", "SW1"), ("C", "SW1"), ("SW1", "R1")] + mid + [("SW2", "B")]
+        return [("A", "SW1"), ("C", "SW1"), ("SW1", "R1")] + mid + [("SW2", "B")] + ([("SW2", "D")] if sc.get("third_host") else [])
     if sc.get("b_behind_router"):
         return [("A", "SW1"), ("C", "SW1"), ("SW1", "FW"), ("FW", "RI"), ("RI", "SW2"), ("SW2", "B")]
     return [("A", "SW1"), ("C", "SW1"), ("SW1", "FW"), ("FW", "SW2"), ("SW2", "B")]
@@ -246,6 +250,8 @@ def protected(sc: dict) -> List[str]:
     routers / firewalls are reached but not traversed.  This is `side = false` of the cut theorem (a powered-off or
     NIC-disabled device is included: its own state must not change either)."""
     m = sc["block"]
+    if m == "router_deny_dst_b_only":
+        return ["B"]  # the rule protects B alone: D and SW2 are reached by permitted traffic, by design
     es = edges(sc)
     names = sorted({x for e in es for x in e})
     removed, barrier = [], []
@@ -311,6 +317,8 @@ def class_patterns(sc: dict, info: dict) -> List[dict]:
         return [pat(src_ip=info["a_ip"]), pat(src_ip=C_IP)]
     if m == "router_deny_src_range":
         return [pat(src_ip="10.0.1.0", src_wc="0.0.0.255")]
+    if m == "router_deny_dst_b_only":
+        return [pat(dst_ip=info["b_ip"])]
     if m == "router_deny_dst_exact":
         return [pat(dst_ip=info["b_ip"]), pat(dst_ip="10.0.2.0", dst_wc="0.0.0.255")]
     if m == "router_deny_three_protocols":
@@ -552,6 +560,8 @@ def apply_block(sc: dict, sim, N, info, timestep_fn):
         elif m == "router_deny_dst_exact":
             r.acl.add_rule(action=ACLAction.DENY, dst_ip_address=b_ip, position=pos)
             r.acl.add_rule(action=ACLAction.DENY, dst_ip_address="10.0.2.0", dst_wildcard_mask="0.0.0.255", position=pos + 1)
+        elif m == "router_deny_dst_b_only":
+            r.acl.add_rule(action=ACLAction.DENY, dst_ip_address=b_ip, position=pos)
         elif m == "router_deny_three_protocols":
             for i, pr in enumerate(("tcp", "udp", "icmp")):
                 r.acl.add_rule(action=ACLAction.DENY, protocol=pr, position=pos + i)
@@ -582,7 +592,7 @@ def apply_block(sc: dict, sim, N, info, timestep_fn):
 # ------------------------------------------------------------------------------------------ red repertoire
 OPS = ["ping", "ping_scan", "port_scan_tcp", "port_scan_udp", "port_scan_arp_port", "db_connect", "db_query", "db_query_new",
        "ftp_send", "data_manip", "ransomware", "dos", "term_login", "term_command", "c2_establish", "c2_terminal",
-       "c2_ransomware", "c2_exfil", "web_get", "c_ping", "ping_gw", "tick"]
+       "c2_ransomware", "c2_exfil", "web_get", "c_ping", "ping_gw", "scan_d_tcp", "scan_d_udp", "tick"]
 
 
 def do_op(op: str, N, info) -> str:
@@ -604,6 +614,13 @@ def do_op(op: str, N, info) -> str:
     if op == "ping_scan":
         from ipaddress import IPv4Network
         return str(len(sw["nmap"].ping_scan(target_ip_address=IPv4Network(info["b_net"]), show=False)))
+    if op in ("scan_d_tcp", "scan_d_udp"):
+        # PERMITTED traffic of the same protocol and ports as the attacks on B, to B's neighbour D, through the blocking element
+        if "d_ip" not in info or "D" not in N:
+            return "no-d"
+        port, proto = ("POSTGRES_SERVER", "TCP") if op == "scan_d_tcp" else ("DNS", "UDP")
+        return str(sw["nmap"].port_scan(target_ip_address=IPv4Address(info["d_ip"]), target_port=PORT_LOOKUP[port],
+                                        target_protocol=PROTOCOL_LOOKUP[proto], show=False))
     if op.startswith("port_scan"):
         port, proto = {"port_scan_tcp": ("POSTGRES_SERVER", "TCP"), "port_scan_udp": ("DNS", "UDP"),
                        "port_scan_arp_port": ("ARP", "UDP")}[op]
@@ -1017,6 +1034,12 @@ def directed_scenarios(rng: Rng) -> List[dict]:
               "post_ops": ["ping_gw"] + [rng.choice(tail) for _ in range(2)] + ["ping_gw", rng.choice(tail)]}
         sc.update(extra)
         out.append(sc)
+    # history family: A first exchanges PERMITTED traffic of the same protocol and ports with B's neighbour D through the router whose
+    # list denies only what is addressed to B, then attacks B (a verdict that depended on what was judged before would let it through)
+    for order in (["scan_d_tcp", "port_scan_tcp", "db_query_new", "scan_d_udp", "port_scan_udp"],
+                  ["scan_d_udp", "scan_d_tcp", "data_manip", "port_scan_udp", "db_connect"]):
+        out.append({"family": "routed", "block": "router_deny_dst_b_only", "routers": 1, "at": "R1", "third_host": True,
+                    "rule_pos": rng.choice([0, 3]), "pre_ops": [rng.choice(["tick", "c_ping"])], "post_ops": order})
     return out
 
 
@@ -1080,7 +1103,7 @@ def run(ctx: Ctx):
         ctx.count(f"net:{'certifiedC' if okc else 'uncertifiedC'}:{sc['block']}")
         ctx.count(f"net:{chunk[-1].split()[0]}:{sc['block']}")
         want_n = expect_certified_n(sc, res["protected"])
-        if chunk[-1].split()[0] != want_n:
+        if chunk[-1].split()[0] != want_n and sc["block"] != "router_deny_dst_b_only":
             certn_bad.append(f"{name} {sc['family']}/{sc['block']}: {chunk[-1]}, expected {want_n}")
         # which theorem covers the scenario, and what it still assumes
         roles = set(roles_for(sc).values())
@@ -1098,11 +1121,14 @@ def run(ctx: Ctx):
             ctx.count("net:theorem:none(oracle only: the closure hypothesis of the class theorem does not hold in this run)")
         else:
             ctx.count("net:theorem:C06_certifiedC_unchanged:closure+software-hypotheses")
+        oracle_only = sc["block"] == "router_deny_dst_b_only"  # B alone is protected: no certificate speaks about it
+        if oracle_only:
+            ctx.count("net:theorem:none(history scenario: only B is protected; element-level C06_verdict_history_free + oracle)")
         if sc["block"] in CERTIFIABLE and not ok:
             cert_bad.append(f"{name} {sc['family']}/{sc['block']}: {chunk[-3]}")
         if sc["block"] not in CERTIFIABLE and ok:
             cert_bad.append(f"{name} {sc['family']}/{sc['block']}: certified although the block is class-specific")
-        if not okc:
+        if not okc and not oracle_only:
             certc_bad.append(f"{name} {sc['family']}/{sc['block']}: {chunk[-2]}")
         if chunk_ctl:
             # non-vacuity of both certificates: the same network without the block must be rejected (a scenario whose block is
